@@ -1,22 +1,32 @@
 """C04 -- spinless cascades reproduce the closed-form Legendre x Breit-Wigner amplitude.
 
-Spec: spec/ClosedForm.tla (EXTENDS Tables, INSTANCE LSCoupling).  One TLC
-state per scenario (non-empty subset of the three chains of A -> 1 2 3, a spin
-J in 0..4 per active chain, a coupling triple (total, g_ls, g_ls) per active
-chain from a lattice of Gaussian integers).  TLC proves on every scenario that
-the (l,s) coupling of both decays is unique, derives the factor (-1)^J from the
-documented helicity-coupling formula with the exact CG table, multiplies the
-couplings exactly, and writes the scenarios together with the exact Legendre
-(half-angle form) and Blatt-Weisskopf coefficient tables.
+Spec: spec/ClosedForm.tla (EXTENDS Tables, INSTANCE LSCoupling): a step machine
+on one model object per structure.  structure = non-empty subset of the three
+chains of A -> 1 2 3 with a spin J in 0..4 per chain; state = (structure,
+parameter point), a parameter point assigns to every chain one entry of a
+lattice (coupling triple total / g_ls / g_ls as Gaussian integers, nominal
+mass as a rational position in the kinematic window, width as a rational
+fraction of it); action SetParams(new) = set_params on the same object.  TLC
+proves on every state that the (l,s) coupling of both decays is unique, derives
+the factor (-1)^J from the documented helicity-coupling formula with the exact
+CG table, multiplies the couplings exactly, checks that the walk it hands out
+is a behaviour through every state of the structure (start, ..., start), and
+writes the lattice, the walks, the frames and the exact Legendre (half-angle
+form) and Blatt-Weisskopf tables.
 
-Binding B3 (numeric): for every scenario a real model is built with
-ConfigLoader(dict) (spin-0 external particles), its density on interior
-phase-space events is compared (relative 1e-8) with
+Binding B1/B3: per structure a real model is built with ConfigLoader(dict)
+(spin-0 externals) at the initial point and driven along the TLC walk with
+set_params (masses, widths, couplings); after every step its density on
+interior events -- given in the parent rest frame AND boosted to a laboratory
+frame (own numpy boost; center_mass is False by default) -- is compared
+(relative 1e-8) with
 
     | sum_k c_k (-1)^J q^J p^J B_J(q,q0) B_J(p,p0) BW_k(m_k) P_J(cos theta_k) |^2
 
-assembled in numpy from the four-momenta, with P_J, B_J, (-1)^J and c_k taken
-from the TLC output (no tf_pwa function enters the reference).
+of the CURRENT point, assembled in numpy from the rest-frame four-momenta with
+P_J, B_J, (-1)^J, c_k, m0, Gamma0 taken from the TLC output (no tf_pwa function
+enters the reference; the reference is a function of the state, never of the
+history).
 """
 import math
 import os
@@ -40,17 +50,16 @@ MASS_SETS = [
     (3.0, (0.14, 0.14, 0.14)),
     (1.97, (0.494, 0.139, 0.938)),
 ]
-FRACS = (0.25, 0.5, 0.8)  # position of the nominal mass inside the kinematic window
-WIDTHS = (0.03, 0.12, 0.45)  # width / window size
 
 
-def _cfg(ctx, ncpl):
-    p = os.path.join(ctx.work, "closedform_%d.cfg" % ncpl)
+def _cfg(ctx, npt, half):
+    p = os.path.join(ctx.work, "closedform_%d.cfg" % npt)
     with open(p, "w") as f:
         f.write(
-            "CONSTANTS MaxD2 = 0\n MaxCG2 = 0\n MaxIdxJ2 = 0\n MaxHel2 = 0\n MaxL = 6\n MaxPJ = 4\n MaxJ = 4\n NCPL = %d\n"
+            "CONSTANTS MaxD2 = 0\n MaxCG2 = 0\n MaxIdxJ2 = 0\n MaxHel2 = 0\n MaxL = 6\n MaxPJ = 4\n MaxJ = 4\n NPT = %d\n HalfFraction = %s\n"
             "INIT InitCF\nNEXT NextCF\nINVARIANT InvUniqueLS\nINVARIANT InvHelicityFactor\nINVARIANT InvCoupling\n"
-            "POSTCONDITION PostCF\nCHECK_DEADLOCK FALSE\n" % ncpl
+            "INVARIANT InvPoint\nINVARIANT InvWalk\nINVARIANT InvWalkMovesMasses\n"
+            "POSTCONDITION PostCF\nCHECK_DEADLOCK FALSE\n" % (npt, "TRUE" if half else "FALSE")
         )
     return p
 
@@ -170,22 +179,31 @@ def build_config(act, Js, M, ms, res):
     return {"data": {"dat_order": list(FINALS)}, "decay": dec, "particle": part}
 
 
+
+
 def run(ctx):
     quick = ctx.tier == "quick"
-    ncpl = 2 if quick else 3
-    nev = 128 if quick else 1024
-    ngrid = 1 if quick else 3
+    npt = 2 if quick else 3
+    nev = 64 if quick else 512  # per frame
+    ngrid = 1 if quick else 2
     cart_every = 8 if quick else 3
-    r = run_tlc("ClosedForm", _cfg(ctx, ncpl), work=ctx.work, workers=16, timeout=1800)
+    r = run_tlc("ClosedForm", _cfg(ctx, npt, quick), work=ctx.work, workers=16, timeout=1800)
     if r.violation:
         raise tlc.MachineryError("ClosedForm spec violates its own theorem %s" % r.violation)
-    ctx.tlc(r, "ClosedForm MaxJ=4 NCPL=%d" % ncpl)
+    ctx.tlc(r, "ClosedForm MaxJ=4 NPT=%d HalfFraction=%s" % (npt, quick), vacuity_actions=["NextCF"])
     out = r.out
-    if r.distinct != out["nscn"] or len(out["scenarios"]) != out["nscn"]:
-        raise tlc.MachineryError("ClosedForm: %d states, %d scenarios" % (r.distinct, out["nscn"]))
+    if r.distinct != out["nstates"]:
+        raise tlc.MachineryError("ClosedForm: %d states, %d expected" % (r.distinct, out["nstates"]))
     ref = Reference(out)
-    ctx.log("TLC: %d scenarios in %.1fs" % (out["nscn"], r.wall))
-    ctx.cov["states"] = r.distinct
+    frames = list(out["frames"])
+    if frames[0] != "rest" or set(frames) - {"rest", "lab"}:
+        raise tlc.MachineryError("unknown frames %s" % frames)
+    # lattice[i] (1-based): couplings (total, g1, g2), c = product (TLC), mass position, width fraction
+    lattice = {}
+    for i, (t, c) in enumerate(out["lattice"], 1):
+        lattice[i] = {"triple": [complex(z[0], z[1]) for z in t[:3]], "c": complex(c[0], c[1]),
+                      "pos": Fraction(t[3][0], t[3][1]), "wid": Fraction(t[4][0], t[4][1]), "raw": t}
+    ctx.log("TLC: %d states, %d transitions, %d structures in %.1fs" % (r.distinct, r.generated - r.coverage.get("InitCF", 0), len(out["structures"]), r.wall))
     nviol = {}
 
     def viol(part, key, detail):
@@ -213,49 +231,64 @@ def run(ctx):
         ctx.count(4, distinct_key=("bw", L), nontrivial=L > 0)
     ctx.part("bw_table", orders=len(out["bw"]))
 
-    # ---- group the scenarios by model structure -------------------------------------------------------
-    structs = {}
-    for s in out["scenarios"]:
-        ch = sorted(s["chains"], key=lambda c: c[0])
-        skey = tuple((c[0], c[1]) for c in ch)
-        structs.setdefault(skey, []).append(ch)
+    structs = sorted(((tuple(sorted(map(tuple, J))), [dict(map(tuple, w)) for w in walk]) for J, walk in out["structures"]),
+                     key=lambda s: (len(s[0]), s[0]))
     rng = np.random.default_rng(ctx.seed)
-    n_eval = n_cart = n_models = 0
+    n_eval = n_cart = n_models = n_steps = n_walks = 0
     worst = 0.0
     min_int = 1.0
-    n_struct = 0
-    evaluated = []
-    for si, skey in enumerate(sorted(structs)):
+    visited = set()
+    for si, (skey, walk0) in enumerate(structs):
         act = [k for k, _ in skey]
         Js = dict(skey)
-        scns = sorted(structs[skey], key=lambda ch: [c[3] for c in ch])
-        n_struct += 1
         stag = "+".join("%s(J=%d)" % (CHAINS[k][0], Js[k]) for k in act)
+        if any(v != 1 for v in walk0[0].values()) or walk0[0] != walk0[-1]:
+            raise tlc.MachineryError("walk of %s does not start and end at the initial point" % stag)
         for gi in range(ngrid):
+            if gi and si % 2:
+                continue  # budget: the second mass set / reversed walk on every other structure
+            # Next is symmetric, so the reversed walk is a behaviour as well (second grid point, thorough tier)
+            walk = walk0 if gi == 0 else walk0[::-1]
             M, ms = MASS_SETS[(si + gi) % len(MASS_SETS)]
             fm = dict(zip(FINALS, ms))
-            res = {}
+            win = {}
             for k in act:
                 _, (a, b), c = CHAINS[k]
-                lo, hi = fm[a] + fm[b], M - fm[c]
-                fr = FRACS[int(rng.integers(len(FRACS)))] if not quick or gi else FRACS[(si + k) % len(FRACS)]
-                wd = WIDTHS[int(rng.integers(len(WIDTHS)))] if not quick or gi else WIDTHS[(si + 2 * k) % len(WIDTHS)]
-                res[k] = (round(lo + fr * (hi - lo), 6), round(wd * (hi - lo), 6))
-            gtag = "M=%g,m=%s,res=%s" % (M, list(ms), {CHAINS[k][0]: res[k] for k in act})
-            # events, interior of the Dalitz region for all three pairings
+                win[k] = (fm[a] + fm[b], M - fm[c])
+
+            def mw(k, i):
+                lo, hi = win[k]
+                return float(lo + lattice[i]["pos"] * Fraction(hi - lo)), float(lattice[i]["wid"] * Fraction(hi - lo))
+
+            gtag = "M=%g,m=%s" % (M, list(ms))
+            # events: interior of the Dalitz region for all three pairings, parent at rest; then the same
+            # events boosted to a laboratory frame (one random velocity per event)
             p1, p2, p3 = gen_events(rng, M, ms, 3 * nev)
-            mom = {"B": p1, "C": p2, "D": p3}
+            rest = {"B": p1, "C": p2, "D": p3}
             keep = np.ones(len(p1), bool)
             for k in (1, 2, 3):
                 _, (a, b), c = CHAINS[k]
-                _, (q, p, cos) = ref.chain(mom[a], mom[b], mom[c], M, 0, 0.5 * (fm[a] + fm[b] + M - fm[c]), 0.1, 1.0)
+                _, (q, p, cos) = ref.chain(rest[a], rest[b], rest[c], M, 0, 0.5 * (fm[a] + fm[b] + M - fm[c]), 0.1, 1.0)
                 keep &= (q > 1e-3 * M) & (p > 1e-3 * M) & (np.abs(cos) < 1 - 1e-6)
             idx = np.where(keep)[0][:nev]
             if len(idx) < nev // 2:
                 raise tlc.MachineryError("event generator produced too few interior events")
-            mom = {n: v[idx] for n, v in mom.items()}
+            rest = {n: v[idx] for n, v in rest.items()}
+            ne = len(idx)
+            beta = unit(rng, ne) * rng.uniform(0.2, 0.9, ne)[:, None]
+            lab = {n: boost(v, beta) for n, v in rest.items()}
+            blocks = {"rest": rest, "lab": lab}
+            mom = {n: np.concatenate([blocks[f][n] for f in frames]) for n in FINALS}
+            # oracle self-check: the closed form is frame independent
+            k0 = act[0]
+            _, (a, b), c = CHAINS[k0]
+            m0_, g0_ = mw(k0, 1)
+            a_r, _ = ref.chain(rest[a], rest[b], rest[c], M, Js[k0], m0_, g0_, 1.0, nom=(fm[a], fm[b], fm[c]))
+            a_l, _ = ref.chain(lab[a], lab[b], lab[c], M, Js[k0], m0_, g0_, 1.0, nom=(fm[a], fm[b], fm[c]))
+            if not np.allclose(a_r, a_l, rtol=1e-8, atol=1e-12 * np.abs(a_r).max()):
+                raise tlc.MachineryError("reference closed form is not frame independent (%s)" % stag)
             try:
-                cfg = ConfigLoader(build_config(act, Js, M, ms, res))
+                cfg = ConfigLoader(build_config(act, Js, M, ms, {k: mw(k, 1) for k in act}))
                 amp = cfg.get_amplitude()
                 data = cfg.data.cal_angle([mom[n] for n in FINALS])
                 chains = list(amp.decay_group)
@@ -263,7 +296,7 @@ def run(ctx):
                 viol("build", "build:%s" % stag, {"error": repr(e), "grid": gtag})
                 continue
             n_models += 1
-            # identify the chain objects and their coupling names; the (l,s) lists TLC proved unique
+            # identify the chain objects and their parameter names; the (l,s) lists TLC proved unique
             names = {}
             for k in act:
                 rname = CHAINS[k][0]
@@ -277,97 +310,122 @@ def run(ctx):
                 ls2 = [tuple(int(x) for x in ls) for ls in d2.get_ls_list()]
                 if ls1 != [(Js[k], Js[k])] or ls2 != [(Js[k], 0)]:
                     viol("ls", "ls_list:%s" % stag, {"A->Rc": ls1, "R->ab": ls2, "expected": [[Js[k], Js[k]], [Js[k], 0]]})
-                names[k] = (ch[0].total.name + "_0", d1.g_ls.name + "_0", d2.g_ls.name + "_0")
+                rp = [pp for pp in ch[0].inner if str(pp) == rname][0]
+                names[k] = {"cpl": (ch[0].total.name + "_0", d1.g_ls.name + "_0", d2.g_ls.name + "_0"),
+                            "mass": getattr(rp.mass, "name", None), "width": getattr(rp.width, "name", None)}
             allp = cfg.get_params()
             for k in act:
-                for nm in names[k]:
+                for nm in names[k]["cpl"]:
                     if nm + "r" not in allp or nm + "i" not in allp:
                         raise tlc.MachineryError("parameter %s not found in the model" % nm)
-            # reference amplitude of each chain for unit coupling
+                for nm in (names[k]["mass"], names[k]["width"]):
+                    if nm not in allp:
+                        raise tlc.MachineryError("parameter %s not found in the model" % nm)
             unit_amp = {}
-            for k in act:
-                _, (a, b), c = CHAINS[k]
-                unit_amp[k], _ = ref.chain(mom[a], mom[b], mom[c], M, Js[k], res[k][0], res[k][1], 1.0, nom=(fm[a], fm[b], fm[c]))
 
-            def compare(scn, mode):
+            def uamp(k, i):
+                """reference amplitude of chain k at lattice point i for unit coupling (rest-frame momenta)"""
+                if (k, i) not in unit_amp:
+                    _, (a, b), c = CHAINS[k]
+                    m0, g0 = mw(k, i)
+                    unit_amp[(k, i)], _ = ref.chain(rest[a], rest[b], rest[c], M, Js[k], m0, g0, 1.0, nom=(fm[a], fm[b], fm[c]))
+                return unit_amp[(k, i)]
+
+            def ptag(pt):
+                return ",".join("%s=%d" % (CHAINS[k][0], pt[k]) for k in act)
+
+            def compare(pt, prev, mode):
                 nonlocal n_eval, worst, min_int
-                cpl = {c[0]: complex(c[3][0], c[3][1]) for c in scn}
-                a = sum(cpl[k] * unit_amp[k] for k in act)
-                want = np.abs(a) ** 2
-                scale = sum(np.abs(cpl[k] * unit_amp[k]) for k in act) ** 2
+                terms = [lattice[pt[k]]["c"] * uamp(k, pt[k]) for k in act]
+                want1 = np.abs(sum(terms)) ** 2
+                scale1 = sum(np.abs(t) for t in terms) ** 2
                 try:
                     got = np.asarray(amp(data))
                 except Exception as e:  # noqa: BLE001
-                    viol("density", "density:%s:raise" % stag, {"error": repr(e)})
+                    viol("density", "density:%s:pt=%s:raise" % (stag, ptag(pt)), {"error": repr(e)})
                     return
                 n_eval += 1
-                err = np.abs(got - want)
-                tol = 1e-8 * want + 1e-11 * scale
-                rel = float((err / (want + 1e-4 * scale)).max())
-                worst = max(worst, rel)
+                if got.shape != (ne * len(frames),):
+                    viol("density", "density:%s:shape" % stag, {"shape": list(got.shape)})
+                    return
                 if len(act) > 1:
-                    min_int = min(min_int, float((want / scale).min()))
-                if not (err <= tol).all() or got.shape != want.shape:
-                    i = int(np.argmax(err - tol)) if got.shape == want.shape else 0
-                    ctag = "|".join("%s:%s*%s*%s" % (CHAINS[c[0]][0], *["%d%+dj" % tuple(z) for z in c[2]]) for c in scn)
-                    viol("density", "density:%s:cpl=%s:%s" % (stag, ctag, mode),
-                         {"grid": gtag, "event": {n: mom[n][i].tolist() for n in FINALS}, "got": float(got.flat[i]) if got.size else None,
-                          "expected": float(want[i]), "max_rel_err": rel, "n_bad": int((~(err <= tol)).sum()), "n_events": len(want)})
+                    min_int = min(min_int, float((want1 / scale1).min()))
+                for fi, fr in enumerate(frames):
+                    g = got[fi * ne:(fi + 1) * ne]
+                    err = np.abs(g - want1)
+                    tol = 1e-8 * want1 + 1e-11 * scale1
+                    rel = float(np.nanmax(err / (want1 + 1e-4 * scale1))) if np.isfinite(err).any() else float("inf")
+                    worst = max(worst, rel) if np.isfinite(rel) else worst
+                    if not (err <= tol).all():
+                        i = int(np.nanargmax(np.where(np.isfinite(err), err - tol, np.inf)))
+                        viol("density", "density:%s:pt=%s:after=%s:%s:%s" % (stag, ptag(pt), ptag(prev) if prev else "build", fr, mode),
+                             {"grid": gtag, "point": {CHAINS[k][0]: {"lattice": lattice[pt[k]]["raw"], "mass,width": mw(k, pt[k])} for k in act},
+                              "previous_point": ptag(prev) if prev else None, "frame": fr,
+                              "event": {n: blocks[fr][n][i].tolist() for n in FINALS}, "got": float(g[i]),
+                              "expected": float(want1[i]), "max_rel_err": rel, "n_bad": int((~(err <= tol)).sum()), "n_events": ne})
+                        break
 
-            def set_couplings(scn, polar):
+            def set_point(pt, polar, with_masses):
                 par = {}
-                for c in scn:
-                    for nm, z in zip(names[c[0]], c[2]):
-                        z = complex(z[0], z[1])
+                for k in act:
+                    for nm, z in zip(names[k]["cpl"], lattice[pt[k]]["triple"]):
                         if polar:
                             par[nm + "r"], par[nm + "i"] = abs(z), float(np.angle(z))
                         else:
                             par[nm + "r"], par[nm + "i"] = z.real, z.imag
+                    if with_masses:
+                        par[names[k]["mass"]], par[names[k]["width"]] = mw(k, pt[k])
                 cfg.set_params(par)
 
-            mine = [s for j, s in enumerate(scns) if j % ngrid == gi or j == 0]
-            if quick and len(act) == 3:
-                # budget: half fraction of the 2^3 coupling assignments (even number of non-default triples:
-                # every chain sees both lattice points, every pair of chains all four combinations)
-                mine = [s for s in mine if sum(1 for c in s if c[2] != [[1, 0], [1, 0], [1, 0]]) % 2 == 0]
-            evaluated.extend((skey, tuple(tuple(map(tuple, c[2])) for c in s)) for s in mine)
-            for scn in mine:
-                set_couplings(scn, True)
-                compare(scn, "polar")
-            # the same couplings entered as cartesian parameters
-            amp.vm.rp2xy_all()
-            for j, scn in enumerate(mine):
-                if (si + j) % cart_every == 0:
-                    set_couplings(scn, False)
-                    compare(scn, "cartesian")
+            # ---- replay the TLC walk on this one model object -------------------------------------------
+            prev = None
+            for step, pt in enumerate(walk):
+                # step 0: the model as built (masses/widths from the configuration), couplings entered
+                set_point(pt, True, with_masses=step > 0)
+                compare(pt, prev, "polar")
+                visited.add((skey, tuple(sorted(pt.items()))))
+                prev = pt
+                n_steps += step > 0
+            n_walks += 1
+            # the same points entered as cartesian parameters: P0 -> P1 -> P0
+            if (si + gi) % cart_every == 0:
+                amp.vm.rp2xy_all()
+                for pt in (walk[0], walk[1], walk[0]):
+                    set_point(pt, False, True)
+                    compare(pt, prev, "cartesian")
+                    prev = pt
                     n_cart += 1
             if si in (3, 40, 150) and gi == 0:
-                scn = mine[-1]
-                ctx.sample({"structure": stag, "grid": gtag, "couplings(total,g_ls,g_ls)": {CHAINS[c[0]][0]: c[2] for c in scn},
-                            "c_k(TLC)": {CHAINS[c[0]][0]: c[3] for c in scn}, "sign(-1)^J(TLC)": {CHAINS[c[0]][0]: c[4] for c in scn},
-                            "events": len(idx)})
-    for kk in evaluated:
+                ctx.sample({"structure": stag, "grid": gtag, "frames": frames, "events_per_frame": ne,
+                            "walk(lattice index per chain)": [ptag(pt) for pt in walk],
+                            "lattice": {i: {"total,g_ls,g_ls,pos,width": lattice[i]["raw"], "c_k(TLC)": [lattice[i]["c"].real, lattice[i]["c"].imag]} for i in lattice},
+                            "sign(-1)^J(TLC)": {CHAINS[k][0]: ref.sign[Js[k]] for k in act}})
+    for kk in visited:
         ctx.count(0, distinct_key=kk, nontrivial=True)
     ctx.count(n_eval)
-    ctx.part("density", structures=n_struct, models_built=n_models, scenarios=len(out["scenarios"]), scenarios_evaluated=len(set(evaluated)), evaluations=n_eval,
-             cartesian_evaluations=n_cart, events_per_model=nev, grids_per_structure=ngrid,
+    if len(visited) != out["nstates"]:
+        ctx.log("warning: %d of %d TLC states visited on the code" % (len(visited), out["nstates"]))
+    ctx.part("density", structures=len(structs), models_built=n_models, tlc_states=out["nstates"], states_visited_on_code=len(visited),
+             walks_replayed=n_walks, set_params_steps=n_steps, density_calls=n_eval, cartesian_calls=n_cart,
+             frames=frames, events_per_frame=nev, grids_per_structure=ngrid,
              max_rel_err=worst, strongest_destructive_interference=min_int)
-    if n_models < n_struct:
-        ctx.log("warning: %d structures could not be built" % (n_struct - n_models))
+    ctx.cov["traces_validated_against_impl"] = n_walks
     ctx.cov["exhaustive"] = False
     ctx.cov["rule"] = (
-        "discrete part exhaustive: every scenario of ClosedForm.tla is one TLC state (non-empty subsets of the 3 chains x J in 0..4 per chain "
-        "x %d coupling triples per chain = %d scenarios, %d model structures); each structure is built through ConfigLoader(dict) on %d "
-        "mass/width grid point(s) and every scenario (quick tier: for three-chain structures the half fraction of the coupling assignments with an "
-        "even number of non-default triples) is evaluated on %d seeded interior events in polar coordinates, every %d-th also in "
-        "cartesian coordinates; reference from the TLC tables (P_J, B_J coefficients, (-1)^J, c_k); |got-ref| <= 1e-8 ref + 1e-11 (sum_k|A_k|)^2. "
-        "continuous part (events, masses, widths) sampled. distinct = distinct (structure, coupling assignment)"
-        % (ncpl, out["nscn"], n_struct, ngrid, nev, cart_every)
+        "discrete part exhaustive: every (structure, parameter point) of ClosedForm.tla is one TLC state (215 structures = non-empty subsets of the "
+        "3 chains x J in 0..4 per chain; %d lattice points per chain%s = %d states; SetParams transitions between the points of a structure); "
+        "per structure one model is built through ConfigLoader(dict) (%d mass set(s); the second one, with the reversed walk, on every other structure) and driven along the TLC walk (start, every other point, start) "
+        "with set_params (couplings, masses, widths); after every step the density on %d seeded interior events per frame (frames %s: parent at rest, "
+        "same events boosted to a laboratory frame) is compared with the closed form of the current point; reference from the TLC tables "
+        "(P_J, B_J coefficients, (-1)^J, c_k, mass/width lattice); |got-ref| <= 1e-8 ref + 1e-11 (sum_k|A_k|)^2; every %d-th model also P0,P1,P0 in cartesian "
+        "coordinates. continuous part (events, final-state masses, boost velocities) sampled. distinct = distinct (structure, parameter point) visited on the code"
+        % (npt, ", balanced half fraction for three-chain structures" if quick else "", out["nstates"], ngrid, nev, frames, cart_every)
     )
     ctx.assume("nominal resonance masses inside the kinematic window (m_a+m_b < m0 < M-m_c): q0 and p0 real")
-    ctx.assume("barrier radius d = 3.0 (documented default), running-width BW with L = J, parent at rest, events in the interior of the Dalitz region")
+    ctx.assume("barrier radius d = 3.0 (documented default), running-width BW with L = J, events in the interior of the Dalitz region; laboratory boosts 0.2 <= beta <= 0.9")
     ctx.assume("c_k = total * g_ls(A->R c) * g_ls(R->a b); helicity angle = angle of the first listed daughter of R in the R frame w.r.t. the R flight direction")
-    ctx.assume("masses, widths and events are sampled (seeded); spins above 4 not enumerated")
+    ctx.assume("the walk covers every state of a structure but not every SetParams transition (TLC explores all of them on the spec)")
+    ctx.assume("final-state masses, events and boosts are sampled (seeded); spins above 4 not enumerated")
 
 
 def replay(ctx, path):
